@@ -14,6 +14,8 @@ table obligation can therefore be replayed by execution.
 import re
 
 GEN_EXPR = "prqlc/prqlc/src/sql/gen_expr.rs"
+RQ_EXPR = "prqlc/prqlc/src/ir/rq/expr.rs"
+LR = "prqlc/prqlc-parser/src/lexer/lr.rs"
 STD_SQL = "prqlc/prqlc/src/sql/std.sql.prql"
 
 RLIMIT = 60
@@ -40,7 +42,11 @@ pub struct OpaqueT { _p: u8 }
 #[verifier::reject_recursive_types(T)]
 pub struct Opaque<T> { _p: core::marker::PhantomData<T> }
 pub struct ErrorMarker; pub type Error = Opaque<ErrorMarker>;
-pub struct RqExprMarker; pub type RqExpr = Opaque<RqExprMarker>;
+pub struct SpanMarker; pub type Span = Opaque<SpanMarker>;
+pub type CId = OpaqueT; pub type InterpolateItem = OpaqueT; pub type SwitchCase = OpaqueT; pub type ValueAndUnit = OpaqueT;
+pub type RqExpr = rq::Expr;
+pub type Expr = sql_ast::Expr;
+use sql_ast::{BinaryOperator, UnaryOperator};
 pub struct ContextMarker; pub type Context = Opaque<ContextMarker>;
 
 // ------------------------------------------------------------------------------------------ oracle
@@ -106,6 +112,8 @@ pub open spec fn site_ok(child_strength: int, is_left: bool, parent_strength: in
 }
 
 pub uninterp spec fn translated(e: RqExpr) -> ExprOrSource;
+pub uninterp spec fn paren_text(t: String) -> String;
+pub uninterp spec fn ast_of_source(t: String) -> Expr;
 
 #[verifier::external_body]
 pub fn translate_expr(expr: RqExpr, ctx: &mut Context) -> (r: Result<ExprOrSource, Error>)
@@ -113,10 +121,59 @@ pub fn translate_expr(expr: RqExpr, ctx: &mut Context) -> (r: Result<ExprOrSourc
 { unimplemented!() }
 
 #[verifier::external_body]
-pub fn fmt_parens(text: String) -> (r: String) { unimplemented!() }
+pub fn fmt_parens(text: String) -> (r: String) ensures r == paren_text(text), { unimplemented!() }
+
+// "(" + t + ")" is two characters longer than t
+pub broadcast proof fn axiom_paren_text_len(t: String)
+    ensures #[trigger] paren_text(t)@.len() == t@.len() + 2,
+{ admit(); }
+
+// boolean str predicates Verus has no specification for: result unconstrained (see extract.shim_str_predicates)
+#[verifier::external_body] pub fn str_pred_starts_with<P>(s: &String, p: P) -> bool { unimplemented!() }
+#[verifier::external_body] pub fn str_pred_ends_with<P>(s: &String, p: P) -> bool { unimplemented!() }
+#[verifier::external_body] pub fn str_pred_contains<P>(s: &String, p: P) -> bool { unimplemented!() }
+#[verifier::external_body] pub fn str_pred_is_empty(s: &String) -> bool { unimplemented!() }
 
 #[verifier::external_body]
 pub fn clone_rq(e: &RqExpr) -> (r: RqExpr) ensures r == *e, { unimplemented!() }
+
+#[verifier::external_body]
+pub fn ident_expr(source: String) -> (r: Expr) ensures r == ast_of_source(source), { unimplemented!() }
+
+#[verifier::external_body]
+pub fn null_value_expr() -> (r: Expr) ensures r is Value, { unimplemented!() }
+
+#[verifier::external_body]
+pub fn str_eq(a: &str, b: &str) -> (r: bool) ensures r == (a@ == b@), { unimplemented!() }
+
+"""
+
+
+POSTLUDE = r"""
+// what wrap_in_parenthesis must produce
+pub open spec fn wrapped(t: ExprOrSource) -> ExprOrSource {
+    match t {
+        ExprOrSource::Expr(e) => ExprOrSource::Expr(Box::new(Expr::Nested(e))),
+        ExprOrSource::Source(s) => ExprOrSource::Source(SourceExpr { text: paren_text(s.text), binding_strength: 100, window_frame: s.window_frame }),
+    }
+}
+
+// the operand a construction site obtains for sub-expression `e` at (is_left, parent strength, associativity)
+pub open spec fn operand(e: RqExpr, is_left: bool, parent: i32, assoc: Associativity) -> ExprOrSource {
+    let t = translated(e);
+    if rule_needs(t.spec_binding_strength() as int, is_left, parent as int, assoc) { wrapped(t) } else { t }
+}
+
+pub open spec fn ast_of(t: ExprOrSource) -> Expr {
+    match t { ExprOrSource::Expr(e) => *e, ExprOrSource::Source(s) => ast_of_source(s.text) }
+}
+
+pub open spec fn null_operand(args: Seq<RqExpr>, strength: int) -> Expr {
+    let other = if is_null_lit(args[0]) { args[1] } else { args[0] };
+    ast_of(operand(other, true, strength as i32, Associativity::Both))
+}
+
+pub open spec fn is_null_lit(e: RqExpr) -> bool { e.kind == rq::ExprKind::Literal(Literal::Null) }
 """
 
 
@@ -158,7 +215,6 @@ def build(X):
     for hdr in ("impl SQLExpression for BinaryOperator", "impl SQLExpression for UnaryOperator",
                 "impl SQLExpression for sql_ast::Expr", "impl SQLExpression for ExprOrSource"):
         im = X.impl(GEN_EXPR, hdr).drop_attrs()
-        im.rewrite_re("R6", r"\bsql_ast::", "", why="module path alias of the skeleton enum")
         if "fn associativity" not in im.text:
             last = im.text.rindex("}")
             im.text = im.text[:last] + "    fn associativity(&self) -> Associativity {" + default_body + "\n    }\n" + im.text[last:]
@@ -167,7 +223,6 @@ def build(X):
         impls.append(im)
 
     eos = X.type_item(GEN_EXPR, "enum", "ExprOrSource").drop_attrs()
-    eos.rewrite_re("R6", r"\bsql_ast::", "")
     se = X.type_item(GEN_EXPR, "struct", "SourceExpr").drop_attrs()
 
     needs = X.fn(GEN_EXPR, "needs_parentheses")
@@ -178,28 +233,22 @@ def build(X):
     """)
 
     wrap = X.fn(GEN_EXPR, "wrap_in_parenthesis")
-    wrap.rewrite_re("R6", r"\bsql_ast::", "")
     wrap.rewrite("R5", 'format!("({text})")', "fmt_parens(text)", why="format! is opaque to Verus")
+    wrap.shim_str_predicates()
     wrap.ret_name("r")
     wrap.contract("""
         ensures
             r.spec_binding_strength() >= 20, // @WP1
-            match self { ExprOrSource::Expr(e) => r == ExprOrSource::Expr(Box::new(Expr::Nested(e))), _ => r is Source },
+            r == wrapped(self), // @WP2
     """)
-    wrap_impl = "impl ExprOrSource {\n" + wrap.text + "\n}\n"
 
     top = X.fn(GEN_EXPR, "translate_operand").pub_all()
-    top.rewrite("R6", "expr: rq::Expr", "expr: RqExpr")
     top.rewrite("R6", "Result<ExprOrSource>", "Result<ExprOrSource, Error>")
     top.ret_name("r")
     top.contract("""
         ensures
-            r is Ok ==> ({
-                let t = translated(expr);
-                let bare = !rule_needs(t.spec_binding_strength() as int, is_left, parent_strength as int, parent_associativity);
-                // bare operands are printed only where the rule allows it; everything else is wrapped
-                (bare ==> r->Ok_0 == t) && (!bare ==> r->Ok_0.spec_binding_strength() >= 20) // @TO1
-            }),
+            // bare operands are printed only where the rule allows it; everything else is wrapped
+            r is Ok ==> r->Ok_0 == operand(expr, is_left, parent_strength, parent_associativity), // @TO1
     """)
 
     L, labels = table_rows()
@@ -216,8 +265,60 @@ pub open spec fn expr_strength_InList() -> int { (Expr::InList { expr: atom(), l
 pub open spec fn expr_strength_Nested() -> int { (Expr::Nested(atom())).spec_binding_strength() as int }
 proof fn reveal_strengths() {}
 """
-    body = "\n".join([binop.text, unop.text, expr.text, assoc.text, assoc_impl.text, trait.text] +
-                     [i.text for i in impls] + [eos.text, se.text, needs.text, wrap_impl, top.text, helpers, table])
+    # ---- real rq types (repo) so that the construction sites can be verified over the real data model
+    rq_expr = X.type_item(RQ_EXPR, "struct", "Expr").drop_attrs()
+    rq_kind = X.type_item(RQ_EXPR, "enum", "ExprKind").drop_attrs()
+    lit = X.type_item(LR, "enum", "Literal").drop_attrs()
+
+    into_ast = X.fn(GEN_EXPR, "into_ast")
+    into_ast.rewrite("R5", "sql_ast::Expr::Identifier(sql_ast::Ident::new(source))", "ident_expr(source)",
+                     why="sqlparser's Ident::new is external; contract: result is ast_of_source(text)")
+    into_ast.ret_name("r")
+    into_ast.contract("ensures r == ast_of(self), // @IA1")
+    eos_impl = "impl ExprOrSource {\n" + into_ast.text + "\n" + wrap.text + "\n}\n"
+
+    tbo = X.fn(GEN_EXPR, "translate_binary_operator")
+    tbo.rewrite("R6", "Result<sql_ast::Expr>", "Result<sql_ast::Expr, Error>")
+    tbo.rewrite_re("R5", r"\b(left|right)\.clone\(\)", r"clone_rq(\1)", count=2,
+                   why="derive(Clone) output is not visible to Verus; contract: clone is the identity")
+    tbo.ret_name("r")
+    tbo.contract("""
+        ensures
+            // each operand goes through translate_operand with the operator's own strength and associativity,
+            // left operand as left, right operand as right; the node is `left op right`
+            r is Ok ==> r->Ok_0 == (sql_ast::Expr::BinaryOp {
+                left: Box::new(ast_of(operand(*left, true, op.spec_binding_strength(), op.spec_associativity()))),
+                op: op,
+                right: Box::new(ast_of(operand(*right, false, op.spec_binding_strength(), op.spec_associativity()))),
+            }), // @TB1
+    """)
+
+    pn = X.fn(GEN_EXPR, "process_null")
+    pn.rewrite("R6", "Result<sql_ast::Expr>", "Result<sql_ast::Expr, Error>")
+    pn.rewrite("R5", "operand.clone()", "clone_rq(operand)", count=2,
+               why="derive(Clone) output is not visible to Verus; contract: clone is the identity")
+    pn.rewrite_re("R5", r"sql_ast::Expr::Value\(Value::Null\.into\(\)\)", "null_value_expr()", count=2,
+                  why="sqlparser Value/ValueWithSpan conversion is external; the value only feeds binding_strength()")
+    pn.rewrite_re("R5", r'name == ("std\.[a-z]+")', r"str_eq(name, \1)", count=2,
+                  why="str equality has no Verus specification; contract: equality of the character sequences")
+    pn.insert_at_body_start('proof { reveal_strlit("std.eq"); reveal_strlit("std.ne"); assert("std.eq"@[4] != "std.ne"@[4]); }',
+                            "proof hint: the two string literals are different character sequences")
+    pn.ret_name("r")
+    pn.contract("""
+        requires
+            args@.len() == 2,
+            name@ == "std.eq"@ || name@ == "std.ne"@,
+            is_null_lit(args@[0]) || is_null_lit(args@[1]),
+        ensures
+            // C02: comparison with the literal null tests null-ness of the OTHER operand, whichever side null is on
+            (r is Ok && name@ == "std.eq"@) ==> r->Ok_0 == sql_ast::Expr::IsNull(Box::new(null_operand(args@, expr_strength_IsNull()))), // @NP5eq
+            (r is Ok && name@ == "std.ne"@) ==> r->Ok_0 == sql_ast::Expr::IsNotNull(Box::new(null_operand(args@, expr_strength_IsNotNull()))), // @NP5ne
+    """)
+
+    sql_mod = "pub mod sql_ast {\nuse super::*;\n" + "\n".join([binop.text, unop.text, expr.text]) + "\n}\n"
+    rq_mod = "pub mod rq {\nuse super::*;\n" + rq_expr.text + "\n" + rq_kind.text + "\n}\n"
+    body = "\n".join([sql_mod, rq_mod, lit.text, assoc.text, assoc_impl.text, trait.text] +
+                     [eos.text, se.text] + [i.text for i in impls] + [helpers, POSTLUDE, needs.text, eos_impl, top.text, tbo.text, pn.text, table])
     return PRELUDE + body + "\n} // verus!\nfn main() {}\n"
 
 
@@ -257,15 +358,20 @@ def table_rows():
     return L, labels
 
 
-LABELS = ["AS1", "AS2", "TW1", "TW2", "NP1", "WP1", "TO1"] + table_rows()[1]
-FUNCTIONS = ["needs_parentheses", "left_associative", "right_associative", "translate_operand", "wrap_in_parenthesis"]
+LABELS = ["AS1", "AS2", "TW1", "TW2", "NP1", "WP1", "WP2", "TO1", "IA1", "TB1", "NP5eq", "NP5ne"] + table_rows()[1]
+FUNCTIONS = ["needs_parentheses", "left_associative", "right_associative", "translate_operand", "wrap_in_parenthesis",
+             "into_ast", "translate_binary_operator", "process_null", "binding_strength", "associativity"]
 ASSUMED = [
     {"what": "sqlparser's Expr / BinaryOperator / UnaryOperator are skeleton enums generated from the pinned sqlparser "
-             "0.60.0 source (variant and field names kept, foreign payload types opaque)", "count": 1},
-    {"what": "Error, rq::Expr and Context are opaque external types", "count": 1},
-    {"what": "translate_expr (the recursive dispatcher, iterator-heavy) is external: `translated(e)` is uninterpreted", "count": 2},
-    {"what": "format!(\"({text})\") is replaced by fmt_parens (R5)", "count": 1},
+             "0.60.0 source (variant and field names kept, foreign payload types opaque: OpaqueT, Opaque<T>)", "count": 2},
+    {"what": "translate_expr (the recursive dispatcher, iterator-heavy) is external: `translated(e)` is uninterpreted and "
+             "treated as a function of the expression only (Context state is not modelled)", "count": 2},
+    {"what": "format!(\"({text})\") is fmt_parens; paren_text is uninterpreted except that it adds two characters (admit in axiom_paren_text_len)",
+     "count": 3},
     {"what": "rq::Expr::clone is the identity (clone_rq)", "count": 1},
+    {"what": "sqlparser Ident::new / Value::Null.into() are external (ident_expr / ast_of_source, null_value_expr)", "count": 3},
+    {"what": "&str == &str compares character sequences (str_eq)", "count": 1},
+    {"what": "boolean str predicates (starts_with, ends_with, contains, is_empty) return an unconstrained bool", "count": 4},
 ]
 TRUSTED = [
     "oracle: SQLite's documented operator precedence table; all binary levels left-associative",
